@@ -8,7 +8,7 @@ Follows the code:
   as soon as its length equals the bucket's size; a longer-than-size batch raises
   `RuntimeError`; a missing key raises `KeyError`; after the pass the pending lists are
   yielded sorted by bucket id unless `drop_incomplete`.
-* `_get_bucket_batch_sampler_params` — quantile bounds of the sorted lengths (with Python's
+* `_get_bucket_batch_sampler_params` — empty maps for an empty data set; quantile bounds of the sorted lengths (with Python's
   negative index when `len(dataset) // num_buckets == 0`), last bound := maximum,
   `sorted(set(..))`, `idx2bucket[i] = #{b | len_i > b}`, sizes `⌊Y·B / y_j⌋` or `B`.
 * `_get_batch_sampler_len` — a `Counter` of bucket ids over the epoch's samples, then a sum
@@ -199,7 +199,7 @@ def bucketParams (lens : List Nat) (nb B : Nat) (dynamic : Bool) : Except Err Bu
   let N := lens.length
   let epb := N / nb
   let sorted := isort lens
-  if N = 0 then .error .index   -- len_idx[-1] on an empty list
+  if N = 0 then .ok ⟨[], [], []⟩   -- `if len(dataset) == 0: return dict(), dict()`
   else
     -- len_idx[(n + 1) * epb - 1]; the index is -1 (= last) when epb = 0
     let b0 := (List.range nb).map (fun n =>
